@@ -10,6 +10,11 @@ def run_hcheck(check, tier, seed, log, time_cap=None, extra_cov=None):
     spaces = check.spaces(tier)
     for v in res.violations:
         sp = spaces[v["space_index"]]
+        if v["oracle"] == "harness-error":
+            # an exception inside the harness or an oracle (e.g. an internal attribute the
+            # oracle reads no longer exists) is a broken check, never a verdict
+            out.harness_errors.append("exception in the harness on history [%s]: %s" % (" ; ".join(codec.show(o) for o in v["history"]), v["message"][-400:]))
+            continue
         out.violations.append(
             {
                 "oracle": v["oracle"],
